@@ -8,6 +8,34 @@ from psmc import boot, run, analysis, dsl, replay, explore as ex
 TIER = os.environ.get("VERIF_TIER", "quick")
 
 
+# Checks whose former thorough alphabet runs in well under a minute use it as their QUICK alphabet; their thorough
+# tier then uses the "deep" alphabet (larger horizons, three-task scenes, denser parameter grids).
+SHIFTED = {"C02", "C04", "C06", "C08", "C10", "C11", "C17", "C19"}
+
+
+def level(pid, tier):
+    if pid in SHIFTED:
+        return {"quick": "thorough", "thorough": "deep"}[tier]
+    return tier
+
+
+def widen(jobs, by=(1,)):
+    """The same programs on longer horizons (the box grows with them): used by the deep alphabets."""
+    import copy
+
+    out = list(jobs)
+    for inc in by:
+        for j in jobs:
+            p = j["program"]
+            j2 = copy.deepcopy(j)
+            if p.get("horizon") is not None:
+                j2["program"]["horizon"] = p["horizon"] + inc
+            j2["program"]["H"] = p["H"] + inc
+            j2["family"] = j.get("family", "") + f"/H+{inc}"
+            out.append(j2)
+    return out
+
+
 def rotate(items, seed=None):
     """VERIF_SEED only rotates the iteration order; no result may depend on it."""
     items = list(items)
